@@ -219,8 +219,15 @@ func buildPipe(ctx context.Context, kind, n, w, buf int) *pipe {
 	case pkMerge:
 		k := w
 		parts := make([][]int, k)
+		// uneven on purpose: any of the sources, the first ones included, may
+		// be empty (its reader is done before the next one is even launched)
+		uneven := simrt.Choose(2) == 1
 		for i, v := range items {
-			parts[i%k] = append(parts[i%k], v)
+			at := i % k
+			if uneven {
+				at = simrt.Choose(k)
+			}
+			parts[at] = append(parts[at], v)
 		}
 		var srcs []*fun.Iterator[int]
 		for _, part := range parts {
